@@ -163,7 +163,7 @@ def shard(col, module, mode, pop_bound, limit, n_groups):
 
 
 def run(ctx):
-    modules = ["numeric", "containers", "shapes", "strings", "raising"]
+    modules = ["numeric", "containers", "shapes", "strings", "raising", "nested"]
     jobs = []
     for m in modules:
         jobs.append((m, "SIMPLE", 1 if ctx.quick else 2, 16 if ctx.quick else 80, 4 if ctx.quick else 12))
